@@ -525,6 +525,20 @@ Definition holds_decode (a o : list N) : bool :=
   | _ => false
   end.
 
+(* family decode_ids (C01, literal reading of "every hash pair it stores equals the corresponding pair of the true blob"
+   under ANY claimed size): as decode, and every pair the run yields (= stores, for the decode_ranges drivers) is the true
+   pair of the node id it is yielded under.  Under a claimed size with a different chunk count this fails
+   (C01_any_size_node_id_refuted): recorded finding. *)
+Definition holds_decode_ids (a o : list N) : bool :=
+  holds_decode a o &&
+  let s := decode_setup a in
+  let data := ds_data s in
+  let '(items, _, _) := dec_run B3 (dec_new B3 (root_hash B3 data) (mkTree (ds_claimed s) (ds_bs s)) (ds_stream s) (ds_q s)) in
+  forallb (fun it => match it with
+                     | IParent nd l r => let '(tl, tr) := true_pair B3 data nd in bytes_eqb B3 l tl && bytes_eqb B3 r tr
+                     | ILeaf _ _ => true
+                     end) items.
+
 (* ---------------- family validate ---------------- *)
 (* args [kind; seed; size; bs; validator; okind; ncor; (where,pos,delta)*; q...] -> [rc; n; (s,e)*] *)
 Definition run_validate (a : list N) : list N :=
